@@ -284,7 +284,28 @@ let cmd_sem_expr (req : json) : json =
   let size = to_int (field req "size") in
   Obj [ ("v", jz v); ("bytes", jlist jn (spec_le_bytes (nat_of_int size) (Z.modulo v (Z.pow (z_of_small 2) (z_of_small (8 * size)))))) ]
 
-let handlers : (string * (json -> json)) list ref = ref [ ("encode", cmd_encode); ("layout", cmd_layout); ("finalize", cmd_finalize);
+(* canonical concrete syntax (spec/ExprPrint.v): print it, say whether it is well-formed, and give the tree it denotes *)
+let rec loose_of (j : json) : loose =
+  match j with
+  | Arr [ Str "L1"; t ] -> L1 (tight_of t)
+  | Arr [ Str "LBin"; l; Str op; t ] -> LBin (loose_of l, op_of_name op, tight_of t)
+  | _ -> failwith "bad loose"
+and tight_of (j : json) : tight =
+  match j with
+  | Arr [ Str "T1"; f ] -> T1 (factor_of f)
+  | Arr [ Str "TBin"; t; Str op; f ] -> TBin (tight_of t, op_of_name op, factor_of f)
+  | _ -> failwith "bad tight"
+and factor_of (j : json) : factor =
+  match j with
+  | Arr [ Str "num"; radix; d ] -> FNum (to_z radix, text_of d)
+  | Arr [ Str "id"; name ] -> FId (text_of name)
+  | Arr [ Str "par"; l ] -> FParens (loose_of l)
+  | _ -> failwith "bad factor"
+let cmd_print_canon (req : json) : json =
+  let l = loose_of (field req "tree") in
+  Obj [ ("wf", Bool (wf_loose l)); ("text", jtext (pr_loose l)); ("ast", jexpr (expr_of_loose l)) ]
+
+let handlers : (string * (json -> json)) list ref = ref [ ("print_canon", cmd_print_canon); ("encode", cmd_encode); ("layout", cmd_layout); ("finalize", cmd_finalize);
     ("parse_expr", cmd_parse_expr); ("eval_expr", cmd_eval_expr); ("sem_expr", cmd_sem_expr) ]
 
 let () =
